@@ -378,7 +378,8 @@ def run(scn_wrap, docs_out):
 
 def main():
     docs = []
-    traces = [run(s, docs) for s in json.load(open(sys.argv[1]))]
+    from _guard import guarded
+    traces = [guarded(run)(s, docs) for s in json.load(open(sys.argv[1]))]
     if docs:
         d = tempfile.mkdtemp(prefix='metacheck_')
         json.dump([x for _, x in docs], open(os.path.join(d, 'docs.json'), 'w'))
